@@ -15,7 +15,7 @@ func init() {
 	register(&PropDef{
 		ID:    "C43",
 		Pkgs:  []string{xdsc},
-		Claim: "Decides the structural part, per watcher-callback creation site in the authority: ResourceChanged callbacks are created only on the error-free arm, after the cache is overwritten with the resource they carry, and never on the arm where the cached resource is equal and no NACK intervened; on a rejected update watchers get ResourceError exactly when nothing is cached and AmbientError otherwise, and not at all for a repeated identical error; a stream failure maps to the same ResourceError/AmbientError split; the resource-removed ResourceError is created only for all-resources-required types, for a cached resource that is absent from the response, not already marked non-existent, and when ignore_resource_deletion is not set, after the cache is cleared; a new watcher is added to the watcher set on every successful registration and gets the cached resource, the NACK error (ResourceError/AmbientError by cache presence) and the not-found error on the corresponding arms; removing the last watcher unsubscribes from every channel and deletes the state; every watcher callback is invoked only inside a closure handed to the watcher-callback serializer.",
+		Claim: "Decides the structural part, per watcher-callback creation site in the authority: ResourceChanged callbacks are created only on the error-free arm, after the cache is overwritten with the resource they carry, and never on the arm where the cached resource is equal and no NACK intervened; on a rejected update watchers get ResourceError exactly when nothing is cached and AmbientError otherwise, and not at all for a repeated identical error; a stream failure maps to the same ResourceError/AmbientError split; the resource-removed ResourceError is created only for all-resources-required types, for a cached resource that is absent from the response, not already marked non-existent, and when ignore_resource_deletion is not set, after the cache is cleared; a new watcher is added to the watcher set on every successful registration and gets the cached resource, the NACK error (ResourceError/AmbientError by cache presence) and the not-found error on the corresponding arms; removing the last watcher unsubscribes from every channel and deletes the state; every watcher callback is invoked only inside a closure handed to the watcher-callback serializer. The per-type map and per-resource state are created only when absent (a new watcher therefore sees the cached resource and error state), a resource is subscribed only when new, and rejected-update notifications are produced only when there was no previous error or its text differs.",
 		NotDecided:  []string{"the complete callback history against a reference model over all response/watch interleavings", "watch-expiry timer behaviour in the channel"},
 		Assumptions: []string{"the callback serializer runs closures in FIFO order (C31)"},
 		Technique:   "static analysis: enumeration of all interface invocations of ResourceWatcher methods, must-hold branch facts at each closure creation, refusing-arm unreachability, dominance of cache writes, must-pass-through",
@@ -24,7 +24,7 @@ func init() {
 	register(&PropDef{
 		ID:    "C44",
 		Pkgs:  []string{xdsc},
-		Claim: "Decides the structural part: fallbackToServer is called only from stream-failure handling, only on the arm where the failure is not 'failed after receiving a response' and some watched resource is still in the Requested state, walking the servers from the failing server's index + 1; falling back does nothing when a channel already exists, and on success subscribes every known resource on the new channel and records it; an update from a server below the active one returns false and the caller then does nothing; an update from a higher-priority server makes that server active and, for every server index above it (starting exactly at its index + 1), unsubscribes every resource subscribed on that channel, runs and clears the cleanup and clears the channel; the active channel is written only in those functions and the open/close helpers.",
+		Claim: "Decides the structural part: fallbackToServer is called only from stream-failure handling, only on the arm where the failure is not 'failed after receiving a response' and some watched resource is still in the Requested state, walking the servers from the failing server's index + 1; falling back does nothing when a channel already exists, and on success subscribes every known resource on the new channel and records it; an update from a server below the active one returns false and the caller then does nothing; an update from a higher-priority server makes that server active and, for every server index above it (starting exactly at its index + 1), unsubscribes every resource subscribed on that channel, runs and clears the cleanup and clears the channel; the active channel is written only in those functions and the open/close helpers. The walks that unsubscribe the resources of released lower-priority servers are never left early.",
 		NotDecided:  []string{"sequences of failures and responses across servers against a model of gRFC A71", "channel reference counting inside the client implementation"},
 		Assumptions: []string{"serverIndexForConfig returns the index of the matching config (it panics otherwise)"},
 		Technique:   "static analysis: who-may-call, must-hold branch facts, loop-index initial-value shape on go/ssa phis, who-may-write, must-pass-through per loop iteration",
